@@ -21,6 +21,10 @@ def kernel_loop(s, kern):
 
 def check(ctx):
     p = ctx.prog
+    # all arithmetic behind this property happens in the numeric type T of the instantiation
+    single_precision(ctx, 'prec.single_type', ['hep::accumulator::', 'hep::accumulate', 'hep::plain_iteration', 'hep::vegas_iteration', 'hep::multi_channel_iteration', 'hep::mc_result::', 'hep::create_result', 'hep::projector::'], 1)
+    # no constructor of the classes this property computes with leaves a member indeterminate
+    members_initialised(ctx, 'init.members', ['hep::accumulator', 'hep::mc_result', 'hep::plain_result', 'hep::vegas_result', 'hep::multi_channel_result'], 6)
     # ------------------------------------------------------------ R1 per-call loops
     nk = 0
     for kern in KERNELS:
